@@ -1114,3 +1114,61 @@ func Size(t *Term, seen map[*Term]bool) int {
 	}
 	return n
 }
+
+// EvalOK is Eval that also reports whether every node could be evaluated (no uninterpreted functions).
+func (s *Store) EvalOK(t *Term, env map[string]uint64, cache map[*Term]uint64, bad map[*Term]bool) (uint64, bool) {
+	if v, ok := cache[t]; ok {
+		return v, true
+	}
+	if bad[t] {
+		return 0, false
+	}
+	var r uint64
+	switch t.Op {
+	case OpConst:
+		r = t.C
+	case OpVar:
+		r = env[t.Name] & maskOrBool(t.W)
+	case OpUF:
+		bad[t] = true
+		return 0, false
+	case OpIte:
+		c, ok := s.EvalOK(t.A[0], env, cache, bad)
+		if !ok {
+			bad[t] = true
+			return 0, false
+		}
+		k := 2
+		if c != 0 {
+			k = 1
+		}
+		v, ok := s.EvalOK(t.A[k], env, cache, bad)
+		if !ok {
+			bad[t] = true
+			return 0, false
+		}
+		r = v
+	default:
+		args := make([]*Term, len(t.A))
+		for i, a := range t.A {
+			v, ok := s.EvalOK(a, env, cache, bad)
+			if !ok {
+				bad[t] = true
+				return 0, false
+			}
+			if a.W == 0 {
+				args[i] = s.Bool(v != 0)
+			} else {
+				args[i] = s.BV(v, a.W)
+			}
+		}
+		nt := s.Rebuild(t, args)
+		if !nt.IsConst() {
+			bad[t] = true
+			return 0, false
+		}
+		r = nt.C
+	}
+	cache[t] = r
+	return r, true
+}
